@@ -428,27 +428,37 @@ func (sc *scen) headOfLine(volume int64) {
 	var stalled []*watched
 	var stalledStreams []*multiplexing.Stream
 	nStalled := 1 + sc.rng.Intn(3)
+	// Establish every stream first, so that the setup itself cannot be what a
+	// stalled stream blocks.
+	type est struct {
+		st   *multiplexing.Stream
+		side int
+	}
+	var ests []est
 	for i := 0; i < nStalled; i++ {
 		a, b, ok := sc.connect(from)
 		if !ok {
 			return
 		}
-		// Alternate the stalled direction.
-		st, side := a, from
+		// Alternate the stalled direction, starting with the bulk direction.
 		if i%2 == 1 {
-			st, side = b, 1-from
-		}
-		stalled = append(stalled, sc.blockWriter(st, side, nil))
-		stalledStreams = append(stalledStreams, st)
-	}
-	for _, w := range stalled {
-		if w.returned() {
-			sc.logf("a stalled writer returned early: (%d, %s)", w.n, errClass(w.err))
+			ests = append(ests, est{b, 1 - from})
+		} else {
+			ests = append(ests, est{a, from})
 		}
 	}
 	a, b, ok := sc.connect(from)
 	if !ok {
 		return
+	}
+	for _, e := range ests {
+		stalled = append(stalled, sc.blockWriter(e.st, e.side, nil))
+		stalledStreams = append(stalledStreams, e.st)
+	}
+	for _, w := range stalled {
+		if w.returned() {
+			sc.logf("a stalled writer returned early: (%d, %s)", w.n, errClass(w.err))
+		}
 	}
 	key := patKey(sc.r.Seed, 25, streamID(a), from)
 	var moved atomic.Int64
